@@ -488,6 +488,10 @@ class CoreHarness(Harness):
                     if got != self.wbyte(exp):
                         self.report("data.read_mismatch", "port %d read byte %02x, expected %02x (last write accepted before this read)" % (k, got, self.wbyte(exp)), port=k)
                     cov["rd_compared"] = cov.get("rd_compared", 0) + 1
+            if not self.port_width and len(rq) + len(wq) > self.depth + 4 + (1 if self.buffered else 0):
+                # the crossbar confines a port to one bank at a time (lock) and a bank machine stores depth (+1 buffered) + 1 commands until
+                # their data phase: more accepted-and-unserved commands than that means one was accepted without being stored anywhere
+                raise Violation("port.accepted_exceeds_storage", "port %d has %d reads and %d writes accepted and not served: more than one bank machine can hold (command buffer depth %d): a command was accepted by the crossbar without entering a bank machine" % (k, len(rq), len(wq), self.depth), port=k)
             offered = pend is not None or ch[k] is not None
             # accepted commands not yet served at the start of this cycle
             pre_r = len(ports[k][3]); pre_w = len(ports[k][2]) - (1 if (pend is not None and pend[0] == "W") else 0)
